@@ -311,7 +311,7 @@ for _p, _t in {
  'C08': ' The worker looks at the exit-requested flag before taking another job (D10, repaired); Process.terminate() '
         'sends TERM_SIGNAL; the lists handed to the finalizer are never re-bound.',
  'C09': ' Workers are started from one place (callers of the refill / fork).',
- 'C10': ' Whoever calls the reaper hands its result to the slot release (known finding D12: did_start_ok).',
+ 'C10': ' Whoever calls the reaper hands its result to the slot release (D12: did_start_ok, repaired).',
  'C12': ' The positions table of a code stand-in is copied whole.',
  'C14': ' Nothing changes the free lists between the best-fit search and the use of its result.',
  'C16': ' join() tests and waits inside one critical section; the framing loops of the connection (write-all, '
